@@ -179,6 +179,7 @@ RULES = [
     ("C17-R3", "content readers are total", r3),
     ("C17-R4", "closed standard output is handled at every write", r4),
     ("C10-R3", "exit status mapping: no failure -> 0, failures -> 1 [shared with C10]", lambda ctx: c10.r3(ctx)),
+    ("C04-R4", "per-entry memo: an unreadable entry keeps nothing of the previous entry [shared with C04]", lambda ctx: __import__("c04").r4(ctx)),
 ]
 
 EXPLANATION = (
@@ -190,7 +191,8 @@ EXPLANATION = (
     "xattr) have no undischarged panic site, no `?`, and fall back to the empty value; every write to standard "
     "output in the search path stops on BrokenPipe, is deliberately ignored, or is propagated to exec_search, which "
     "treats BrokenPipe as a normal stop; check_file returns Ok(false) on a closed pipe and the walker stops at both "
-    "call sites; println!/print! are not reachable from the search. Real faults are not injected.")
+    "call sites; println!/print! are not reachable from the search. Real faults are not injected."
+    ' The per-entry memo is reset field by field and each update_* stores its value on every path that raises its flag.')
 ASSUMPTIONS = ["rustc's HIR/MIR faithfully represent the source; exporter and rule scripts are correct",
                "the panicking-API table of rules/panics.py (see C10)"]
 NOT_DECIDED = ["behaviour under real faults (permission changes during the walk, vanishing files)", "content of stderr messages",
